@@ -1922,6 +1922,25 @@ func c15Sweep(r *vrng, ops []c15Op, labels []int) []c15Op {
 
 func c15DirectedPathCases(r *vrng, id int) []*c15Case {
 	var cs []*c15Case
+	// the shortest histories first: one session of each request path, every id right after it was made,
+	// looked up, and again after the session ended
+	for _, shape := range [][2]int{{1, 0}, {2, 2}} {
+		c := &c15Case{Id: id, Mode: 2, NCaches: shape[0], Size: shape[1], Note: "ids made by the hub's request paths (short)"}
+		id++
+		src := func(base, which int) *c15Src { return &c15Src{Base: base, Which: which, Mut: c15Mut{K: "id"}} }
+		c.Ops = append(c.Ops, c15Op{K: "register_internal", Label: 1})
+		c.Ops = c15Sweep(r, c.Ops, []int{1})
+		c.Ops = append(c.Ops, c15Op{K: "addsession", Label: 2, Parent: 1, Sess: "v1"})
+		c.Ops = c15Sweep(r, c.Ops, []int{1, 2})
+		c.Ops = append(c.Ops,
+			c15Op{K: "lookup", Role: c15Private, Src: src(2, c15Private)},
+			c15Op{K: "lookup", Role: c15Public, Src: src(2, c15Public)},
+			c15Op{K: "dump"},
+			c15Op{K: "removesession", Label: 2})
+		c.Ops = c15Sweep(r, c.Ops, []int{1, 2})
+		c.Ops = append(c.Ops, c15Op{K: "lookup", Role: c15Private, Src: src(2, c15Private)}, c15Op{K: "dump"})
+		cs = append(cs, c)
+	}
 	for _, shape := range [][2]int{{1, 0}, {1, 2}, {2, 3}, {3, 6}, {1, 1}} {
 		c := &c15Case{Id: id, Mode: 2, NCaches: shape[0], Size: shape[1], Note: "ids made by the hub's request paths"}
 		id++
